@@ -92,14 +92,14 @@ def _mk(fs_files):
     return fs, r, fails
 
 
-def _do_assert(r, which, actual, kind, ref=REF):
+def _do_assert(r, which, actual, kind, ref=REF, **opts):
     """0 string, 1 text file, 2 list of text files, 3 binary file"""
     if which == 0:
-        r.assertStringCorrect(actual, ref, kind=kind)
+        r.assertStringCorrect(actual, ref, kind=kind, **opts)
     elif which == 1:
-        r.assertTextFileCorrect(ACT, ref, kind=kind)
+        r.assertTextFileCorrect(ACT, ref, kind=kind, **opts)
     elif which == 2:
-        r.assertTextFilesCorrect([ACT], [ref], kind=kind)
+        r.assertTextFilesCorrect([ACT], [ref], kind=kind, **opts)
     else:
         r.assertBinaryFileCorrect(ACT, ref, kind=kind)
 
@@ -370,6 +370,71 @@ def lift_regen(content, which):
     return not fails
 
 
+STRIP_ALPHA = ['a', ' ', '\n', '\x0c', '\t', '\r', '\x85', '\u2028']
+
+
+def k3_regenerate_with_strip(idx: List[int], which: int, lstrip: bool, rstrip: bool) -> bool:
+    """
+    pre: len(idx) <= P['nc'] and all(0 <= i < len(STRIP_ALPHA) for i in idx) and which == P['which']
+    post: __return__
+    """
+    # "the same assertion" includes its options: with lstrip / rstrip in force on both the regenerating and the checking
+    # call, over content made of a letter, blanks, and characters that are line boundaries to str.splitlines()
+    which = _c(which, 3)
+    content = ''
+    for i in idx:
+        for k in range(len(STRIP_ALPHA)):
+            if i == k:
+                content += STRIP_ALPHA[k]
+                break
+    fs, r, fails = _mk({ACT: content})
+    verbose = ReferenceTest.verbose
+    opts = {'lstrip': bool(lstrip), 'rstrip': bool(rstrip)}
+    try:
+        with fakefs.patched(fs, rtm, cfm, bcm):
+            ReferenceTest.set_regeneration(None, True)
+            _do_assert(r, which, content, None, REF, **opts)
+            if fails or REF not in fs.files:
+                return False
+            ReferenceTest.regenerate = {}
+            n = len(fs.log)
+            _do_assert(r, which, content, None, REF, **opts)
+            if fails or fs.log[n:]:
+                return False
+    finally:
+        ReferenceTest.regenerate = {}
+        ReferenceTest.verbose = verbose
+    return True
+
+
+def lift_regen_strip(idx, which, lstrip, rstrip):
+    """public API on real files"""
+    import os
+    import shutil
+    import tempfile
+    content = ''.join(STRIP_ALPHA[i] for i in idx)
+    d = tempfile.mkdtemp(prefix='vp_c10_')
+    fails = []
+    try:
+        act = os.path.join(d, 'a.txt')
+        ref = os.path.join(d, 'r.txt')
+        with open(act, 'w', newline='', encoding='utf-8') as f:
+            f.write(content)
+        r = ReferenceTest(lambda ok, msg=None: fails.append(msg) if not ok else None)
+        r.verbose = False
+        r.files.tmp_dir = d
+        fn = [r.assertStringCorrect, r.assertTextFileCorrect, r.assertTextFilesCorrect][which]
+        a0 = [content, act, [act]][which]
+        ReferenceTest.regenerate = {None: True}
+        fn(a0, [ref] if which == 2 else ref, lstrip=bool(lstrip), rstrip=bool(rstrip))
+        ReferenceTest.regenerate = {}
+        fn(a0, [ref] if which == 2 else ref, lstrip=bool(lstrip), rstrip=bool(rstrip))
+    finally:
+        ReferenceTest.regenerate = {}
+        shutil.rmtree(d, ignore_errors=True)
+    return not fails
+
+
 def k3_binary_regenerate(data: List[int]) -> bool:
     """
     pre: len(data) <= 3 and all(0 <= b <= 255 for b in data)
@@ -446,6 +511,12 @@ def _obs():
                           'content: any string len<=%d (incl. CR, LF, no final newline, non-ASCII); reference name '
                           'r.%s' % (nc, ext), param={'nc': nc, 'ext': ext}, timeout=to, tier=tier, stubs=['fakefs'],
                           known=['C10.pdf-reference-encoding'] if ext == 'pdf' else [], lift='lift_regen'))
+    for nc, tier, to, wh in [(3, 'quick', 400, w) for w in (0, 1, 2)] + [(4, 'thorough', 3000, w) for w in (0, 1, 2)]:
+        obs.append(Ob('K3', 'k3_regenerate_with_strip', 'regenerate-then-check passes when the assertion carries lstrip / '
+                      'rstrip (the same options on both calls) and writes nothing on the pass',
+                      'content: <=%d characters from {a, space, LF, FF, TAB, CR, NEL, LS}; lstrip, rstrip symbolic; '
+                      '%s' % (nc, ['string', 'text file', 'list of text files'][wh]), param={'nc': nc, 'which': wh},
+                      timeout=to, tier=tier, stubs=['fakefs'], lift='lift_regen_strip'))
     obs.append(Ob('K3', 'k3_binary_regenerate', 'after assertBinaryFileCorrect has regenerated its reference it holds '
                   'exactly the actual bytes and the same assertion passes in normal mode, writing nothing',
                   'any byte string len<=3', timeout=120, stubs=['fakefs']))
